@@ -216,7 +216,18 @@ def do_subhypergraph(sim, rec, props):
     edges = None if rec["edges"] is None else dec(rec["edges"])
     keep = rec["keep_isolates"]
     w.stats["op:subhypergraph." + src.kind] += 1
-    new, exc, _ = quiet_call(xgi.subhypergraph, src.sut, nodes=nodes, edges=edges, keep_isolates=keep)
+    # the selections in every container shape (one-shot iterators included), chosen from the uid
+    shapes = [list, tuple, iter, (lambda c: (x for x in c)), list, set]
+
+    def shaped(sel, j):
+        if sel is None:
+            return None
+        try:
+            return shapes[(rec["uid"] + j) % len(shapes)](sel)
+        except TypeError:  # unhashable element in a set shape
+            return list(sel)
+    new, exc, _ = quiet_call(xgi.subhypergraph, src.sut, nodes=shaped(nodes, 0), edges=shaped(edges, 3),
+                             keep_isolates=keep)
     w.logev("subhypergraph", rec["uid"], rec["src"], rec["new"], "ok" if exc is None else type(exc).__name__)
     if exc is not None:
         w.find(props, "subhypergraph_failed", rec, src.kind, f"{type(exc).__name__}: {exc}")
